@@ -80,5 +80,6 @@ print(len(inv), 'functions with memo tables / registries')
 from stonelint import grammar
 gref = grammar.build_reference(pm1)
 json.dump(gref, open(os.path.join(HERE, 'reference', 'grammar.json'), 'w'), indent=0, sort_keys=True)
-print(len(gref['grammar']['productions']), 'productions,',
-      sum(len(v) for v in gref['lexer']['rules'].values()), 'lexer rules')
+for lang in grammar.LANGS:
+    print(lang, len(gref[lang]['grammar']['productions']), 'productions,',
+          sum(len(v) for v in gref[lang]['lexer']['rules'].values()), 'lexer rules')
